@@ -63,10 +63,13 @@ def main():
             if n <= 2 or os.path.exists(os.path.join(SRC, pid, f"patch{n}.diff")):
                 jobs.append((pid, n))
     jobs = [j for i, j in enumerate(jobs) if i % nw == w]
-    wt = f"/tmp/cs-worker{w}"
+    wt = os.environ.get("CS_WT", f"/tmp/cs-worker{w}")  # CS_WT: several single-seed runs side by side
     subprocess.run(["git", "-C", "/repo", "worktree", "remove", "--force", wt], capture_output=True)
     subprocess.run(["git", "-C", "/repo", "worktree", "add", "-q", "--detach", wt, "HEAD"], check=True)
     env = dict(os.environ, CARGO_TARGET_DIR=f"{wt}/target", CARGO_NET_OFFLINE="true")
+    warm = os.environ.get("CS_PREWARM")  # a target dir built from the same HEAD: dependencies are reused, workspace crates rebuild
+    if warm and os.path.isdir(warm):
+        subprocess.run(["cp", "-a", warm, f"{wt}/target"], check=True)
     head = subprocess.run(["git", "-C", "/repo", "rev-parse", "--short", "HEAD"], capture_output=True, text=True).stdout.strip()
     for pid, n in jobs:
         if only and f"{pid}-{n}" not in only:
